@@ -5,7 +5,10 @@ package main
 // most are well-typed and flip during a run (counters moving towards
 // thresholds); a separate stream adds ill-typed / failing pieces.
 
-import "fmt"
+import (
+	"fmt"
+	"strings"
+)
 
 type gen struct {
 	p      *prng
@@ -102,6 +105,9 @@ func (g *gen) intExpr(depth int) *Expr {
 	l, r := g.intExpr(depth-1), g.intExpr(depth-1)
 	if op == "%" {
 		r = cInt(int64(2 + g.p.intn(3)))
+		if g.p.chance(1, 3) {
+			r = eVar(vPath("F", pick(g.p, []string{"U8", "U16", "U32", "I16"})))
+		}
 	}
 	g.ops[op]++
 	return mkBin(op, l, r)
@@ -157,7 +163,15 @@ func (g *gen) boolExpr(depth int) *Expr {
 	if depth <= 0 || g.p.chance(1, 3) {
 		return g.cmp()
 	}
-	switch g.p.intn(6) {
+	switch g.p.intn(7) {
+	case 6:
+		// the same sub-expression parenthesised plain and negated
+		b := g.boolExpr(depth - 1)
+		g.ops["(e) vs !(e)"]++
+		if g.p.chance(1, 2) {
+			return mkBin(pick(g.p, []string{"&&", "||", "==", "!="}), eParen(false, b), eParen(true, b))
+		}
+		return mkBin(pick(g.p, []string{"&&", "||", "==", "!="}), eParen(true, b), eParen(false, b))
 	case 0:
 		g.ops["&&"]++
 		return mkBin("&&", g.boolExpr(depth-1), g.boolExpr(depth-1))
@@ -210,7 +224,14 @@ func (g *gen) cmp() *Expr {
 
 // a condition that fails to evaluate, one way or another
 func (g *gen) badCond() *Expr {
-	switch g.p.intn(7) {
+	switch g.p.intn(11) {
+	case 9, 10:
+		// a read through a moving index: fine until F.I leaves the slice, then an (ordinary) error
+		return mkBin("<", eVar(vSel(vPath("F", "FArr"), eVar(vPath("F", "I")))), cFloat(100))
+	case 7, 8:
+		// evaluates fine at first and fails once a counter has reached k (integer division by zero)
+		x := g.intVar()
+		return mkBin(">=", mkBin("%", cInt(100), eParen(false, mkBin("-", cInt(int64(2+g.p.intn(3))), eVar(x)))), cInt(0))
 	case 0:
 		return mkBin("==", eVar(vPath("Nope", "X")), cInt(1)) // missing fact
 	case 1:
@@ -325,6 +346,9 @@ func (g *gen) rule(i int, n int) *Rule {
 	}
 	if v := thresholdVar(r.When); v != nil && g.p.chance(5, 6) {
 		r.Then = append(r.Then, g.progress(v))
+	}
+	if strings.Contains(noSpace(r.When.grl()), "F.FArr[F.I]") {
+		r.Then = append(r.Then, assign(vPath("F", "I"), "=", mkBin("+", eVar(vPath("F", "I")), cInt(1))))
 	}
 	na := g.p.intn(3)
 	for j := 0; j < na; j++ {
